@@ -112,9 +112,18 @@ func matchGlyph(gid gID, value uint16) bool { return gid == gID(value) }
 // interprets `value` as a Class
 func matchClass(class tables.ClassDef) matcherFunc {
 	return func(gid gID, value uint16) bool {
-		c, _ := class.Class(gid)
-		return uint16(c) == value
+		return classOf(class, gid) == value
 	}
+}
+
+// classOf returns the class of `gid`, which is 0 for every glyph
+// when the class definition is missing (null offset in the font file)
+func classOf(class tables.ClassDef, gid gID) uint16 {
+	if class == nil {
+		return 0
+	}
+	c, _ := class.Class(gid)
+	return uint16(c)
 }
 
 // interprets `value` as an index in coverage array
@@ -589,7 +598,7 @@ func (c *wouldApplyContext) wouldApplyLookupContext1(data tables.SequenceContext
 }
 
 func (c *wouldApplyContext) wouldApplyLookupContext2(data tables.SequenceContextFormat2, index int, glyphID GID) bool {
-	class, _ := data.ClassDef.Class(gID(glyphID))
+	class := classOf(data.ClassDef, gID(glyphID))
 	ruleSet := data.ClassSeqRuleSet[class]
 	return c.wouldApplyRuleSet(ruleSet, matchClass(data.ClassDef))
 }
@@ -626,7 +635,7 @@ func (c *wouldApplyContext) wouldApplyLookupChainedContext1(data tables.ChainedS
 }
 
 func (c *wouldApplyContext) wouldApplyLookupChainedContext2(data tables.ChainedSequenceContextFormat2, index int, glyphID GID) bool {
-	class, _ := data.InputClassDef.Class(gID(glyphID))
+	class := classOf(data.InputClassDef, gID(glyphID))
 	ruleSet := data.ChainedClassSeqRuleSet[class]
 	return c.wouldApplyChainRuleSet(ruleSet, matchClass(data.InputClassDef))
 }
@@ -1067,7 +1076,7 @@ func (c *otApplyContext) applyLookupContext1(data tables.SequenceContextFormat1,
 }
 
 func (c *otApplyContext) applyLookupContext2(data tables.SequenceContextFormat2, index int, glyphID GID) bool {
-	class, _ := data.ClassDef.Class(gID(glyphID))
+	class := classOf(data.ClassDef, gID(glyphID))
 	var ruleSet tables.SequenceRuleSet
 	if int(class) < len(data.ClassSeqRuleSet) {
 		ruleSet = data.ClassSeqRuleSet[class]
@@ -1102,7 +1111,7 @@ func (c *otApplyContext) applyLookupChainedContext1(data tables.ChainedSequenceC
 }
 
 func (c *otApplyContext) applyLookupChainedContext2(data tables.ChainedSequenceContextFormat2, index int, glyphID GID) bool {
-	class, _ := data.InputClassDef.Class(gID(glyphID))
+	class := classOf(data.InputClassDef, gID(glyphID))
 	var ruleSet tables.ChainedClassSequenceRuleSet
 	if int(class) < len(data.ChainedClassSeqRuleSet) {
 		ruleSet = data.ChainedClassSeqRuleSet[class]
